@@ -42,6 +42,7 @@ pub enum Entry {
     InnerPastEnd,
     PropLenPastEnd,
     PayloadFormat,
+    ConnFlagNoField,
 }
 
 pub const ALL_ENTRIES: &[Entry] = &[
@@ -78,6 +79,7 @@ pub const ALL_ENTRIES: &[Entry] = &[
     Entry::InnerPastEnd,
     Entry::PropLenPastEnd,
     Entry::PayloadFormat,
+    Entry::ConnFlagNoField,
 ];
 
 impl Entry {
@@ -116,6 +118,7 @@ impl Entry {
             Entry::InnerPastEnd => "inner-past-end",
             Entry::PropLenPastEnd => "proplen-past-end",
             Entry::PayloadFormat => "payloadformat",
+            Entry::ConnFlagNoField => "connflag-nofield",
         }
     }
 }
@@ -568,6 +571,15 @@ pub fn sites(w: &WPacket) -> Vec<Site> {
             v.push(Site { entry: Entry::PropLen, idx: 1 });
         }
     }
+    // CONNECT: the user-name / password flag set although the frame ends where that field would begin
+    if let Body::Connect { username, password, .. } = &w.body {
+        if username.is_none() && password.is_none() {
+            v.push(Site { entry: Entry::ConnFlagNoField, idx: 0 });
+        }
+        if password.is_none() {
+            v.push(Site { entry: Entry::ConnFlagNoField, idx: 1 });
+        }
+    }
     // a payload that is flagged as UTF-8 (Payload Format Indicator = 1) in a PUBLISH or in the will
     if let Body::Publish { props: Some(ps), .. } = &w.body {
         if ps.get(0x01) == Some(&PVal::Byte(1)) {
@@ -906,6 +918,30 @@ pub fn apply_ex(orig: &WPacket, site: &Site, t: &mut Tape, out_w: &mut Option<WP
             }
             ps.declared = Some(actual - 1);
             (all(ExpErr::InvalidPropertyLength(actual - 1)), format!("property length declared {} for {} bytes", actual - 1, actual))
+        }
+        Entry::ConnFlagNoField => {
+            // the announced field is simply not there: the frame is complete and too short, like an inner length that runs
+            // past its end
+            match &mut w.body {
+                Body::Connect { flags, username, password, .. } => {
+                    if site.idx == 0 {
+                        if username.is_some() || password.is_some() {
+                            return None;
+                        }
+                        *flags |= 0x80;
+                    } else {
+                        if password.is_some() {
+                            return None;
+                        }
+                        // (the user name, if there is one, stays; in v5 a password needs no user name, in the v3 family the
+                        // library accepts that too: pinned leniency L3)
+                        *flags |= 0x40;
+                    }
+                }
+                _ => return None,
+            }
+            let bytes = serialize(&w)?;
+            return Some(Mutated { bytes, expect: Expect::InnerPastEnd, desc: format!("{} flag set, the field itself absent", if site.idx == 0 { "user name" } else { "password" }) });
         }
         Entry::PayloadFormat => {
             // one of the ill-formed UTF-8 shapes at the front, in the middle or at the end of the payload
